@@ -41,7 +41,7 @@ deriving Repr, Inhabited
 abbrev Dict := List (Str × J)
 
 /-- the Python exception classes the modelled code can raise -/
-inductive PyErr | typeError | keyError | attributeError | stopIteration
+inductive PyErr | typeError | keyError | attributeError | stopIteration | assertionError
 deriving Repr, DecidableEq, Inhabited
 
 def PyErr.name : PyErr → String
@@ -49,6 +49,7 @@ def PyErr.name : PyErr → String
   | .keyError => "KeyError"
   | .attributeError => "AttributeError"
   | .stopIteration => "StopIteration"
+  | .assertionError => "AssertionError"
 
 /-- `r` returned a value satisfying `p` (for `decide`d statements about `Except` results) -/
 def okAnd {α} (r : Except PyErr α) (p : α → Bool) : Bool :=
@@ -688,7 +689,53 @@ def bulkDoc (appName : Str) (ts : List Table) (routes : List RouteFn) : Except P
 def bulk (appName : Str) (ts : List Table) (routes : List RouteFn) : Except PyErr J :=
   (bulkDoc appName ts routes).map Doc.toJ
 
-/-- the operations of the bulk document for an entry (`:pk` has become `{pk}`) -/
-def Entry.hasTable (e : Entry) (ts : List Table) : Bool := ts.any (fun t => bulkKey t.name == e.name)
+/-! ### `parse_model`: which nodes of a model file are SQLAlchemy models (`parser_utils.infer`) -/
+
+/-- what `parse_model` sees of one `ClassDef` / `Call` node of a model file (nodes come in `ast.walk` order) -/
+inductive SrcNode
+  /-- `class C(b1, b2, …)`: the `id`s of the bases that are plain names, in order (a dotted base has no `id`);
+      what `cdd.sqlalchemy.parse.sqlalchemy(node)` gives for it (`none`: it raises) -/
+  | classDef (baseIds : List Str) (table : Option Table)
+  /-- `f(a0, a1, …, k=v)`: number of positional arguments; the `id` of `a1` when it is a plain name;
+      what `cdd.sqlalchemy.parse.sqlalchemy_table(node)` gives for it (`none`: it raises) -/
+  | call (nargs : Nat) (arg1 : Option Str) (table : Option Table)
+deriving Repr, Inhabited
+
+inductive Inferred | sqlalchemy | sqlalchemyTable | class_ | none
+deriving Repr, DecidableEq, Inhabited
+
+/-- `infer(node)` for `ClassDef` / `Call`:
+    `ClassDef`: `"sqlalchemy"` iff ANY plain-name base is `Base`, else `"class_"`;
+    `Call`: `"sqlalchemy_table"` iff `len(args) > 2 and args[1].id == "metadata"` (`AttributeError` when `args[1]` has no `id`), else `None` -/
+def inferNode : SrcNode → Except PyErr Inferred
+  | .classDef baseIds _ => .ok (if baseIds.any (· == c!"Base") then .sqlalchemy else .class_)
+  | .call nargs arg1 _ =>
+    if nargs > 2 then
+      match arg1 with
+      | some id => .ok (if id == c!"metadata" then .sqlalchemyTable else .none)
+      | none => .error .attributeError
+    else .ok .none
+
+/-- `filter(lambda node: (infer(node) or "").startswith("sqlalchemy"), …)` followed by the parse of every kept node -/
+def discover : List SrcNode → Except PyErr (List Table)
+  | [] => .ok []
+  | n :: rest =>
+    match inferNode n with
+    | .error e => .error e
+    | .ok k =>
+      if k == .sqlalchemy || k == .sqlalchemyTable then
+        match (match n with | .classDef _ t => t | .call _ _ t => t) with
+        | none => .error .assertionError
+        | some t =>
+          match discover rest with
+          | .ok ts => .ok (t :: ts)
+          | .error e => .error e
+      else discover rest
+
+/-- `openapi_bulk` from the nodes of the model files -/
+def bulkSrc (appName : Str) (nodes : List SrcNode) (routes : List RouteFn) : Except PyErr J :=
+  match discover nodes with
+  | .ok ts => bulk appName ts routes
+  | .error e => .error e
 
 end OpenApi
